@@ -125,29 +125,268 @@ def sizes(tier, quick, thorough):
     return thorough if tier == "thorough" else quick
 
 
-# ---------------------------------------------------------------------------------------------
-# C01
-# ---------------------------------------------------------------------------------------------
+def loc3(l):
+    return tuple(l)
 
-def check_C01(tier, seed):
-    out = Outcome("C01")
-    n, k = sizes(tier, (70, 4), (900, 5))
-    progs = F.fixed_mm(1) + F.random_mm(seed, n, 100, k=k)
+
+def proj_c04(evs):
+    out = []
+    for e in evs:
+        k = e["k"]
+        if k == "A":
+            out.append(("A", e["r"], b(e["ms"]), b(e["me"]), e["pk"]))
+        elif k == "T":
+            out.append(("T", e["r"], b(e["s"]), b(e["e"])))
+        elif k == "I":
+            out.append(("I",))
+            break
+        elif k == "C":
+            out.append(("C", e["r"]))
+        elif k == "N":
+            out.append(("N",))
+        elif k in "PH":
+            out.append((k,))
+            break
+    return out
+
+
+def proj_c05(evs):
+    return proj_tokens(evs, stop_at_invalid=True, with_errors_loc=True)
+
+
+def proj_c06(evs):
+    """Every location triple and match text, up to the first InvalidToken (inclusive)."""
+    out = []
+    for e in evs:
+        k = e["k"]
+        if k == "A":
+            out.append(("A", e["r"], loc3(e["ms"]), loc3(e["me"]), tuple(e.get("tx", ()))))
+        elif k == "T":
+            out.append(("T", e["r"], loc3(e["s"]), loc3(e["e"])))
+        elif k == "I":
+            out.append(("I", loc3(e["at"])))
+            break
+        elif k == "C":
+            out.append(("C", e["r"], loc3(e["at"])))
+        elif k == "N":
+            out.append(("N",))
+        elif k in "PH":
+            out.append((k,))
+            break
+    return out
+
+
+def proj_c07(evs):
+    """Items: tokens by rule and byte span, errors in full (kind, payload, location)."""
+    out = []
+    for e in evs:
+        k = e["k"]
+        if k == "T":
+            out.append(("T", e["r"], b(e["s"]), b(e["e"])))
+        elif k == "I":
+            out.append(("I", loc3(e["at"])))
+            break
+        elif k == "C":
+            out.append(("C", e["r"], e["q"], loc3(e["at"])))
+        elif k == "N":
+            out.append(("N",))
+        elif k in "PH":
+            out.append((k,))
+            break
+    return out
+
+
+def proj_c08(evs):
+    """Everything that follows errors: the whole trace, InvalidToken reduced to its kind."""
+    out = []
+    for e in evs:
+        k = e["k"]
+        if k == "A":
+            out.append(("A", e["r"], e["n"], b(e["ms"]), b(e["me"])))
+        elif k == "T":
+            out.append(("T", e["r"], b(e["s"]), b(e["e"])))
+        elif k == "I":
+            out.append(("I",))
+        elif k == "C":
+            out.append(("C", e["r"]))
+        elif k == "N":
+            out.append(("N",))
+        elif k == "S":
+            out.append(("S", e["n"]))
+        elif k in "PH":
+            out.append((k,))
+            break
+    return out
+
+
+def proj_c10(evs):
+    """The action protocol: every invocation in full, every token / custom error in full."""
+    out = []
+    for e in evs:
+        k = e["k"]
+        if k == "A":
+            out.append(("A", e["r"], e["n"], loc3(e["ms"]), loc3(e["me"]), tuple(e.get("tx", ())),
+                        e["pk"], e["ch"]))
+        elif k == "T":
+            out.append(("T", e["r"], e["q"], loc3(e["s"]), loc3(e["e"])))
+        elif k == "I":
+            out.append(("I",))
+            break
+        elif k == "C":
+            out.append(("C", e["r"], e["q"]))
+        elif k == "N":
+            out.append(("N",))
+        elif k == "S":
+            out.append(("S", e["n"]))
+        elif k in "PH":
+            out.append((k,))
+            break
+    return out
+
+
+def generic_replay_check(pid, tier, progs, proj, what, rule, ctors=(0,), clone_points=False,
+                         workers=None, **kw):
+    out = Outcome(pid)
     byid = {p.id: p for p in progs}
-    fr = replay_family("C01", progs, workers=8 if tier == "quick" else 14,
-                       tlc_timeout=600 if tier == "quick" else 3000)
-    other = replay_violations(out, fr, proj_tokens, byid, "token sequence differs from the maximal-munch reference")
+    fr = replay_family(pid, progs, ctors=ctors, clone_points=clone_points,
+                       workers=workers or (8 if tier == "quick" else 14),
+                       tlc_timeout=700 if tier == "quick" else 3300, **kw)
+    other = replay_violations(out, fr, proj, byid, what)
     for f in fr.build_failures:
-        out.notes.append("program %d dropped: %s (%s) -- judged by C12" % (f["program"], f["kind"], f["message"][:100]))
-    out.coverage = base_coverage(
-        fr, "programs: 10 fixed maximal-munch shapes + seeded random 2-6 rule single-rule-set "
-            "definitions; inputs: every string of length <= k over the program's alphabet; "
-            "TLC enumerates every behaviour of RefLexer.tla (one state per match attempt), each "
-            "expected trace is replayed into the real generated lexer; a trace counts when the "
-            "projected (rule, lexeme span) sequence was compared")
+        out.notes.append("program %d dropped: %s (%s) -- judged by C12" % (
+            f["program"], f["kind"], f["message"][:100]))
+    out.coverage = base_coverage(fr, rule)
     out.coverage["mismatches_outside_projection"] = other
     out.coverage["dropped_programs"] = len(fr.build_failures)
+    out.fr = fr
+    out.byid = byid
     return out
+
+
+INPUTS_RULE = ("inputs: every string of length <= k over the program's alphabet (letters used by "
+               "the rules plus one foreign letter); TLC enumerates every behaviour of RefLexer.tla "
+               "(every decision history the rules' menus allow), each expected trace is replayed "
+               "into the real generated lexer; ")
+
+
+def check_C01(tier, seed):
+    n, k = sizes(tier, (70, 4), (900, 5))
+    progs = (F.fixed_mm(1) + F.random_mm(seed, n, 100, k=k)
+             + F.random_general(seed + 1, n // 3, 5000, k=k, nsets=(1,), nrules=(2, 3, 4, 5), p_sugar=0.3,
+                                menu_sizes=(1,), p_fal=0.0, named=False, depth=3))
+    for p in progs:
+        if p.id >= 5000:
+            for r in p.rules():
+                if r["kind"] == "inf":
+                    r["menu"] = [F.D(False, -1, 1)]
+    return generic_replay_check(
+        "C01", tier, progs, proj_tokens,
+        "token sequence differs from the maximal-munch reference",
+        "programs: 10 fixed maximal-munch shapes (the property's own examples, issue 16, cycles and "
+        "joins) + seeded random 2-6 rule single-rule-set definitions with and without `rule` "
+        "blocks; " + INPUTS_RULE + "compared: (rule, lexeme byte span) of every action and token")
+
+
+def check_C03(tier, seed):
+    n, k = sizes(tier, (60, 3), (700, 4))
+    progs = F.random_general(seed, n, 100, k=k, nsets=(2, 2, 3, 3, 4), nrules=(0, 1, 2, 2, 3),
+                             menu_sizes=(1, 2, 2, 3), p_fal=0.2)
+    return generic_replay_check(
+        "C03", tier, progs, proj_tokens,
+        "a rule of a rule set that is not active ran (or the wrong rule set was entered)",
+        "programs: seeded random definitions with 2-4 rule sets (empty ones included), every rule "
+        "with a menu of 1-3 decisions among continue/return x reset x switch-to-any-rule-set; "
+        + INPUTS_RULE + "compared: (rule, lexeme span) of every action and token up to the first "
+        "InvalidToken")
+
+
+def check_C04(tier, seed):
+    n, k = sizes(tier, (60, 4), (700, 5))
+    progs = F.random_general(seed, n, 100, k=k, nsets=(1, 1, 2), nrules=(2, 3, 3, 4), p_ctx=0.55,
+                             p_eoi=0.15, menu_sizes=(1,), p_fal=0.0, p_sugar=0.2, allow_switch=False)
+    for p in progs:
+        for r in p.rules():
+            if r["kind"] == "inf":
+                r["menu"] = [F.D(False, -1, 1)]
+    return generic_replay_check(
+        "C04", tier, progs, proj_c04,
+        "a rule with a right context matched/was skipped wrongly, or the context was consumed",
+        "programs: seeded random definitions in which about half of the rules carry a right context "
+        "(literals, sets, repetition, `$`, nullable contexts) in any priority position; "
+        + INPUTS_RULE + "compared: (rule, lexeme span, next character seen by the action) of every "
+        "action and token up to the first InvalidToken")
+
+
+def check_C05(tier, seed):
+    n, k = sizes(tier, (60, 4), (700, 5))
+    progs = (F.random_general(seed, n // 2, 100, k=k, nsets=(1, 2, 2, 3), nrules=(1, 2, 2, 3), p_eoi=0.4,
+                              menu_sizes=(1, 2), p_fal=0.2, letters=(F.A, F.B), sigma=(F.A, F.B, 120))
+             + F.random_general(seed + 1, n // 2, 3000, k=k, nsets=(1,), nrules=(1, 2, 3), p_eoi=0.5,
+                                menu_sizes=(1, 2), p_fal=0.0, named=False, letters=(F.A, F.B),
+                                sigma=(F.A, F.B, 120)))
+    return generic_replay_check(
+        "C05", tier, progs, proj_c05,
+        "end-of-input protocol violated ($ rule, None/InvalidToken at the end, fused stream)",
+        "programs: seeded random definitions over {a,b} with `$`-tailed rules in Init and in other "
+        "rule sets (40-50% of rules), with and without `rule` blocks; " + INPUTS_RULE +
+        "the input therefore ends at every point (inside a lexeme, after a match, after a rewind, "
+        "in any rule set); compared: every action and item with byte positions up to the first "
+        "InvalidToken, and four further next() calls after the first None")
+
+
+LOC_SIGMA = (97, 10, 9, 233, 769, 28450, 128512)
+
+
+def check_C06(tier, seed):
+    n, k = sizes(tier, (40, 3), (300, 4))
+    progs = F.random_general(seed, n, 100, k=k, nsets=(1,), nrules=(2, 3, 4), p_eoi=0.1,
+                             menu_sizes=(1, 2), p_fal=0.1, letters=LOC_SIGMA[:6] if False else (97, 10, 9, 233, 769, 28450, 128512),
+                             sigma=LOC_SIGMA, depth=2)
+    return generic_replay_check(
+        "C06", tier, progs, proj_c06,
+        "a location (line, column, byte index) or match text differs from the fold over the input",
+        "programs: seeded random definitions over the location alphabet {a, newline, tab, e-acute "
+        "(2 bytes), combining acute (2 bytes, width 0), CJK (3 bytes, width 2), emoji (4 bytes, "
+        "width 2)} whose rules overlap so that lexers rewind; " + INPUTS_RULE +
+        "compared: all Loc triples of match_loc(), tokens and errors, and match_() text")
+
+
+def check_C07(tier, seed):
+    n, k = sizes(tier, (60, 3), (700, 4))
+    progs = F.random_general(seed, n, 100, k=k, nsets=(1, 1, 2), nrules=(2, 3, 4), p_ctx=0.15,
+                             menu_sizes=(1, 2, 3), p_fal=0.6, p_sugar=0.15)
+    return generic_replay_check(
+        "C07", tier, progs, proj_c07,
+        "an error item differs (kind, payload or location), or an error was raised although a rule matches",
+        "programs: seeded random definitions with 60% fallible (`=?`) rules whose menus include "
+        "Err decisions with and without reset_match()/continue_ accumulation; " + INPUTS_RULE +
+        "compared: every item; errors in full (kind, payload, line/col/byte)")
+
+
+def check_C08(tier, seed):
+    n, k = sizes(tier, (60, 4), (700, 5))
+    progs = F.random_general(seed, n, 100, k=k, nsets=(2, 2, 3), nrules=(1, 2, 2, 3),
+                             menu_sizes=(1, 2), p_fal=0.1, letters=(F.A, F.B), sigma=(F.A, F.B, 120))
+    return generic_replay_check(
+        "C08", tier, progs, proj_c08,
+        "after an InvalidToken the lexer did not resume right after the examined text, in Init, and stay there",
+        "programs: seeded random multi-rule-set definitions over {a,b} (inputs also contain the "
+        "unlexable letter x) with switch/continue/return menus; " + INPUTS_RULE +
+        "compared: the whole trace after every InvalidToken (actions with user-state counter, "
+        "tokens, further errors, final user state)")
+
+
+def check_C10(tier, seed):
+    n, k = sizes(tier, (60, 3), (700, 4))
+    progs = (F.random_general(seed, n, 100, k=k, nsets=(1, 2, 2), nrules=(2, 3, 4),
+                              menu_sizes=(2, 3, 3), p_fal=0.4, p_sugar=0.3))
+    return generic_replay_check(
+        "C10", tier, progs, proj_c10,
+        "the semantic-action protocol was violated (invocation, match text/loc, peek, token span, sugar)",
+        "programs: seeded random definitions mixing `re,` / `re = t` / `=>` / `=?` rules, every "
+        "non-sugar rule with a menu of 2-3 decisions (continue/return/Err x reset_match x switch); "
+        + INPUTS_RULE + "compared: every action invocation in full (rule, user-state counter, "
+        "match_loc, match_ text, peek, decision) and every token / custom error in full")
 
 
 def setup():
@@ -165,4 +404,11 @@ def setup():
 
 CHECKS = {
     "C01": check_C01,
+    "C03": check_C03,
+    "C04": check_C04,
+    "C05": check_C05,
+    "C06": check_C06,
+    "C07": check_C07,
+    "C08": check_C08,
+    "C10": check_C10,
 }
